@@ -68,6 +68,7 @@ class Contract:
         self.constructs = d.get('constructs', False)  # __init__ contracts: at modular call sites the new object is a fresh symbolic object
         self.effect = d.get('effect')                 # trusted summaries only: fn(ip, argmap) ghost/event code run at modular call sites after the havoc
         self.loops_optional = d.get('loops_optional', False)
+        self.cvc5_first = d.get('cvc5_first', [])      # label regexes of clauses to hand to cvc5 before z3
         self.finish = d.get('finish')                 # fn(ip, env) ghost code run at exit before clauses
         self.doc = (cls.__doc__ or '').strip()
         self._loop_nodes = None
@@ -343,7 +344,7 @@ class _S:
         info = ops.SLICE_INFO.get(ops.term(x).get_id())
         if info is None:
             return False
-        b, lo_c, n = info
+        b, lo_c, n = info[:3]
         if not b.eq(ops.term(base)):
             return False
         L = ops.blen(b)
